@@ -594,3 +594,72 @@ UNITS += [
                       "tolerance preconditions (second-order terms soft-zero, first-order not) are the caller's (SurfaceSimplifier)"],
          note="QuadricPlaneConverter::operator() (host): plane normal = first / |first| and displacement = -zeroth / |first| with one common factor, so the plane has the quadric's zero set and orientation"),
 ]
+
+
+# ---------------------------------------------------------------------------
+# PlaneAligned<T>::calc_intersections and Plane::calc_intersections: positive distance or none; none on the surface / parallel
+# ---------------------------------------------------------------------------
+PLA = "src/orange/surf/PlaneAligned.hh"
+PLN = "src/orange/surf/Plane.hh"
+PLANE_MODEL = """
+#include <math.h>
+typedef struct { real_type v[3]; } Real3;
+typedef struct { real_type position_; } PlaneAligned;
+typedef struct { Real3 normal_; real_type d_; } Plane;
+enum { SS_off = 0, SS_on = 1 };
+#define NO_INTERSECTION __builtin_inf()
+#define TAXIS 1                          /* template parameter T bound to Axis::y (one instantiation) */
+real_type __CPROVER_uninterpreted_dot(real_type, real_type, real_type, real_type, real_type, real_type);
+#define DOT(a, b) __CPROVER_uninterpreted_dot((a).v[0], (a).v[1], (a).v[2], (b).v[0], (b).v[1], (b).v[2])     /* dot_product: value uninterpreted */
+"""
+PLANE_RULES = [
+    Rule(r"dir\[to_int\(T\)\]", "dir.v[TAXIS]", "*", note="component along the plane's axis"),
+    Rule(r"pos\[to_int\(T\)\]", "pos.v[TAXIS]", "*", note="component along the plane's axis"),
+    Rule(r"dot_product\(normal_, (dir|pos)\)", r"DOT(self->normal_, \1)", "*", note="dot_product -> uninterpreted"),
+    Rule(r"SurfaceState::(on|off)", r"SS_\1", "*", note="enum class value"),
+    Rule(r"return \{([^{}]*)\};", r"return (\1);", "+", note="one-element Intersections array -> its element"),
+    Rule(r"no_intersection\(\)", "NO_INTERSECTION", "*", note="no_intersection() == infinity"),
+    Rule(r"(?<![\w.>])(position_|d_)\b", r"self->\1", "*", note="data member"),
+]
+PLANE_POST = """
+/* every reported distance is strictly positive (or the no-intersection value), never NaN */
+__CPROVER_ensures(__CPROVER_return_value > 0)
+/* a track ON the surface, or moving parallel to it, never re-intersects it */
+__CPROVER_ensures((on_surface == SS_on || NDIR == 0) ==> __CPROVER_return_value == NO_INTERSECTION)
+/* otherwise the distance is (plane position - position along the normal) / (direction along the normal) whenever that is positive, else none */
+__CPROVER_ensures((on_surface == SS_off && NDIR != 0) ==> __CPROVER_return_value == (((OFFSET) / (NDIR) > 0) ? (OFFSET) / (NDIR) : NO_INTERSECTION))
+"""
+
+
+def build_plane_aligned(ctx):
+    pc = ctx.func(PLA, r"^PlaneAligned<T>::calc_intersections\(Real3 const& pos,", PLANE_RULES, name="PlaneAligned<T>::calc_intersections")
+    return (HDR + PLANE_MODEL + """
+#define NDIR (dir.v[TAXIS])
+#define OFFSET (self->position_ - pos.v[TAXIS])
+real_type PLA_isect(PlaneAligned const* self, Real3 pos, Real3 dir, int on_surface)
+__CPROVER_requires(self != 0 && (on_surface == SS_off || on_surface == SS_on) && !__CPROVER_isnand(self->position_) && !__CPROVER_isnand(pos.v[TAXIS]) && !__CPROVER_isnand(dir.v[TAXIS]))
+__CPROVER_assigns()""" + PLANE_POST + "{" + pc.body + """}
+void h_pla(void) { PlaneAligned p; Real3 a, b; int s; PLA_isect(&p, a, b, s); VERIF_CANARY(); }
+""")
+
+
+def build_plane(ctx):
+    pc = ctx.func(PLN, r"^Plane::calc_intersections\(Real3 const& pos,", PLANE_RULES, name="Plane::calc_intersections")
+    return (HDR + PLANE_MODEL + """
+#define NDIR (DOT(self->normal_, dir))
+#define OFFSET (self->d_ - DOT(self->normal_, pos))
+real_type PLN_isect(Plane const* self, Real3 pos, Real3 dir, int on_surface)
+__CPROVER_requires(self != 0 && (on_surface == SS_off || on_surface == SS_on) && !__CPROVER_isnand(self->d_) && !__CPROVER_isnand(DOT(self->normal_, pos)) && !__CPROVER_isnand(DOT(self->normal_, dir)))
+__CPROVER_assigns()""" + PLANE_POST + "{" + pc.body + """}
+void h_pln(void) { Plane p; Real3 a, b; int s; PLN_isect(&p, a, b, s); VERIF_CANARY(); }
+""")
+
+
+UNITS += [
+    Unit("c12_plane_aligned_isect", build_plane_aligned, "h_pla", enforce="PLA_isect", timeout=300, backend=["sat", "kissat", "cvc5"], must_have=[r"PLA_isect.postcondition"], checks=["--bounds-check", "--pointer-check"],
+         assumptions=["template parameter T bound to Axis::y"],
+         note="PlaneAligned<T>::calc_intersections: distance > 0 or none; none on the surface or for a parallel direction; otherwise (position - pos[T]) / dir[T] (IEEE division, bit-precise)"),
+    Unit("c12_plane_isect", build_plane, "h_pln", enforce="PLN_isect", timeout=300, backend=["sat", "kissat", "cvc5"], must_have=[r"PLN_isect.postcondition"], checks=["--bounds-check", "--pointer-check"],
+         assumptions=["dot_product uninterpreted (the unit decides which vectors are projected on the normal, not the accuracy)"],
+         note="Plane::calc_intersections: distance > 0 or none; none on the surface or for a direction perpendicular to the normal; otherwise (d - n.pos) / (n.dir)"),
+]
